@@ -96,8 +96,11 @@ class Prop(PropBase):
         return ("other", repr(obj))
 
     # ---------------------------------------------------------------- real code
-    def _mk(self, cls, layout, g, L=32, n=2, base=None):
+    def _mk(self, cls, layout, g, L=32, n=None, base=None, var=0):
         pb, np, u = self.pb, self.np, self.u
+        # channel count and channel alignment vary with the case (even counts with 'bottom'/'top' labels included)
+        n = n or (base.shape[1] if base is not None and base.ndim > 1 else [2, 3, 4, 2][var % 4])
+        align = ["center", "bottom", "top"][(var // 4) % 3]
         shape = (L,) + sigs.sample_shape(cls, n)
         if base is None:
             big = g.standard_normal((2 * L,) + shape[1:])
@@ -115,7 +118,7 @@ class Prop(PropBase):
             data.flags.writeable = False
         kw = {"pol_type": "circular"} if cls == "DualPolarizationSignal" else {}
         z = sigs.make(pb, cls, L, 1 * u.MHz, sigs.T0S[0], nchan=n, data=data, center_freq=400 * u.MHz,
-                      meta={"k": [1, 2], "s": "x"}, **kw)
+                      freq_align=align, meta={"k": [1, 2], "s": "x"}, **kw)
         return z, big
 
     def _call(self, call, z, others, g, rng):
@@ -234,10 +237,10 @@ class Prop(PropBase):
         rng = random.Random(case["seed"])
         cls = case["cls"]
         if case["op"] == "one":
-            z, big = self._mk(cls, case["layout"], g)
+            z, big = self._mk(cls, case["layout"], g, var=case["seed"] % 12)
             others = []
             if case["layout"] == "shared":
-                z2, _ = self._mk(cls, "shared", g, base=big)
+                z2, _ = self._mk(cls, "shared", g, base=big, var=case["seed"] % 12)
                 others = [z2]
             watch, thunk = self._call(case["call"], z, others, g, rng)
             if thunk is None:
@@ -253,8 +256,8 @@ class Prop(PropBase):
             changed = [i for i, (a, b) in enumerate(zip(before, after)) if a != b]
             return {"outcome": outcome, "changed": changed, "nwatched": len(watch)}
         # history over a pool of signals sharing one base buffer
-        z0, big = self._mk(cls, case["layout"], g)
-        z1, _ = self._mk(cls, "shared", g, base=big)
+        z0, big = self._mk(cls, case["layout"], g, var=case["seed"] % 12)
+        z1, _ = self._mk(cls, "shared", g, base=big, var=case["seed"] % 12)
         z2 = z0[4:]
         pool = [z0, z1, z2]
         watch = pool + [big]
